@@ -283,6 +283,70 @@ inline bool inDomain(const Spec &s) {
   return true;
 }
 
+// ---- medium-size family -----------------------------------------------------
+// The cross products above stop at 3-4 cells.  Code that sorts, partitions, windows or chunks its input can be right on
+// every such toy and wrong beyond a threshold (more than 16 elements in a sort, a second window, a third hierarchy
+// level, many equal keys).  This family is a parameter grid, enumerated completely, of circuits with 12..40 cells on
+// 4..10 rows: {rows} x {cells} x {width pattern} x {position pattern} x {obstacle pattern} x {polarity pattern} x {nets}.
+struct MediumCfg {
+  bool polarities = true;    // include the polarity patterns
+  bool tall = true;          // include patterns with two-row cells
+  int stride = 1;            // take every stride-th member of the grid
+};
+inline void enumerateMedium(const MediumCfg &cfg, const std::function<void(const Spec &)> &f) {
+  int rh = 2, idx = 0;
+  for (int nRows : {4, 10})
+    for (int nCells : {12, 24, 40})
+      for (int wPat = 0; wPat < 3; ++wPat)          // 0 all equal (ties), 1 mixed 1..3, 2 mixed with two-row cells
+        for (int pPat = 0; pPat < 4; ++pPat)        // 0 one spot, 1 spread, 2 reverse order, 3 far outside
+          for (int oPat = 0; oPat < 3; ++oPat)      // 0 none, 1 fixed column cutting every row in two, 2 comb of 20 1-wide blocks in row 0
+            for (int polPat = 0; polPat < 3; ++polPat)  // 0 none, 1 SAME/OPPOSITE alternating, 2 NW/SE alternating
+              for (int nPat = 0; nPat < 4; ++nPat) {    // 0 none, 1 chain, 2 star on cell 0 + a terminal, 3 one net over all cells + one over 17
+                if (!cfg.polarities && polPat != 0) continue;
+                if (!cfg.tall && wPat == 2) continue;
+                if (idx++ % cfg.stride != 0) continue;
+                int W = std::max(oPat == 2 ? 52 : 24, (nCells * 5) / nRows + 6);  // the comb needs room for 20 blocks
+                Spec s;
+                for (int r = 0; r < nRows; ++r) s.rows.push_back(mkRow(0, W, r, rh, r % 2 ? oFS : oN));
+                // every other member gives its rows top-to-bottom, every fourth in an interleaved order
+                if (idx % 2 == 0) std::reverse(s.rows.begin(), s.rows.end());
+                if (idx % 4 == 1) for (int r = 0; r + 2 < nRows; r += 3) std::swap(s.rows[r], s.rows[r + 2]);
+                for (int i = 0; i < nCells; ++i) {
+                  CellSpec c;
+                  c.w = wPat == 0 ? 2 : 1 + (i * 7 + i / 3) % 3;
+                  c.h = (wPat == 2 && i % 9 == 4) ? 2 * rh : rh;
+                  switch (pPat) {
+                    case 0: c.x = W / 2; c.y = rh * (nRows / 2); break;
+                    case 1: c.x = (i * 5) % (W - 3); c.y = rh * ((i * 3) % nRows); break;
+                    case 2: c.x = W - 3 - (i * 2) % (W - 3); c.y = rh * (nRows - 1 - i % nRows); break;
+                    default: c.x = -40 - i; c.y = rh * nRows + 30 + (i % 5); break;
+                  }
+                  if (polPat == 1) c.polarity = 1 + i % 2;
+                  if (polPat == 2) c.polarity = 3 + i % 2;
+                  if (c.h > rh && polPat == 2) c.polarity = 0;  // NW/SE on even-height cells has no satisfying row pair here
+                  s.cells.push_back(c);
+                }
+                if (oPat == 1) { CellSpec o; o.w = 2; o.h = rh * nRows; o.x = W / 3; o.y = 0; o.fixed = true; s.cells.push_back(o); }
+                if (oPat == 2)
+                  for (int k = 0; k < 20; ++k) { CellSpec o; o.w = 1; o.h = rh; o.x = 2 + 2 * k + k / 3; o.y = 0; o.fixed = true; s.cells.push_back(o); }  // row 0 in 21 segments
+                if (nPat == 1)
+                  for (int i = 0; i + 1 < nCells; i += 2) { NetSpec n; n.pins = {{i, 0, 0}, {i + 1, 1, 1}, {(i * 5 + 3) % nCells, 0, 1}}; s.nets.push_back(n); }
+                if (nPat == 2) {
+                  CellSpec t; t.w = 0; t.h = 0; t.x = W + 5; t.y = -3; t.fixed = true; s.cells.push_back(t);
+                  int ti = (int)s.cells.size() - 1;
+                  for (int i = 1; i < nCells; i += 3) { NetSpec n; n.pins = {{0, 1, 1}, {i, 0, 0}, {ti, 0, 0}}; n.weight = 1.0f + (i % 2); s.nets.push_back(n); }
+                }
+                if (nPat == 3) {
+                  NetSpec all, most;
+                  for (int i = 0; i < nCells; ++i) all.pins.push_back({i, i % 2, (i % 3) % 2});
+                  for (int i = 0; i < 17 && i < nCells; ++i) most.pins.push_back({(i * 5) % nCells, 1, 0});
+                  s.nets.push_back(all);
+                  s.nets.push_back(most);
+                }
+                f(s);
+              }
+}
+
 // Primer calls for the worker processes (see verif.hpp): legalizations / detailed placements of circuits with restrictive
 // polarities, many cells, a fixed cell in front, a movable macro.
 inline std::vector<std::function<void()>> legalizationPrimers() {
